@@ -2724,6 +2724,114 @@ fn handshake_phase(run: &Run, seed: u64, scale: u32) {
 		}
 	}
 
+	// ---- handshake followed by traffic on the SAME stream: whatever the peer writes right behind its
+	// Shake (resp. Hand), coalesced with it or cut anywhere, must be read as the next message by the
+	// codec that takes over the stream (faithfulness covers the whole byte stream of a connection)
+	{
+		let ping_body: Vec<u8> = {
+			let mut b = vec![];
+			b.extend_from_slice(&0x1122_3344_5566_7788u64.to_be_bytes());
+			b.extend_from_slice(&0x0102_0304_0506_0708u64.to_be_bytes());
+			b
+		};
+		let ping = frame(3, &ping_body);
+		let is_our_ping = |m: &Message| -> bool {
+			match m {
+				Message::Ping(p) => p.total_difficulty.to_num() == 0x1122_3344_5566_7788 && p.height == 0x0102_0304_0506_0708,
+				_ => false,
+			}
+		};
+		let read_after = |stream: TcpStream, version: ProtocolVersion| -> Result<bool, String> {
+			let mut codec = Codec::new(version, stream);
+			let t0 = Instant::now();
+			loop {
+				let (r, _) = codec.read();
+				match r {
+					Ok(m) => return Ok(is_our_ping(&m)),
+					Err(Error::Connection(ref e)) if (e.kind() == std::io::ErrorKind::WouldBlock || e.kind() == std::io::ErrorKind::TimedOut) && t0.elapsed() < Duration::from_secs(4) => continue,
+					Err(e) => return Err(format!("{:?}", e)),
+				}
+			}
+		};
+		// initiate side: peer answers Shake || Ping
+		let shake = frame(2, &shake_body(LOCAL_VERSION, 0x2f, 77, "scripted/1.0", &gbytes));
+		let mut stream_bytes = shake.clone();
+		stream_bytes.extend_from_slice(&ping);
+		let cuts: Vec<usize> = if scale == 0 { vec![0, 1, shake.len() - 1, shake.len(), shake.len() + 1, stream_bytes.len() - 1] } else { (0..stream_bytes.len()).collect() };
+		for &cut in &cuts {
+			let hs = Arc::new(Handshake::new(genesis, P2PConfig::default()));
+			let hs2 = hs.clone();
+			let t = thread::spawn(move || {
+				let mut c = TcpStream::connect(laddr).expect("connect");
+				let r = hs2.initiate(caps, Difficulty::from_num(5), PeerAddr(self_addr), &mut c);
+				(r, c)
+			});
+			let (mut srv, _) = listener.accept().expect("accept");
+			let _ = srv.set_nodelay(true);
+			let _ = read_frame(&mut srv, 5000);
+			{
+				let mut w = &srv;
+				if cut == 0 {
+					let _ = w.write_all(&stream_bytes);
+				} else {
+					let _ = w.write_all(&stream_bytes[..cut]);
+					thread::sleep(Duration::from_millis(2));
+					let _ = w.write_all(&stream_bytes[cut..]);
+				}
+			}
+			let (r, c) = t.join().expect("initiate thread");
+			run.eval(&format!("handshake_then_traffic|initiate|cut_class{}", if cut == 0 { 0 } else if cut < shake.len() { 1 } else if cut == shake.len() { 2 } else { 3 }), true);
+			let replay = json!({"side": "initiate", "stream": "Shake||Ping", "cut": cut, "shake_len": shake.len()});
+			match r {
+				Ok(info) => match read_after(c, info.version) {
+					Ok(true) => run.count("handshake_then_traffic_ok", 1),
+					Ok(false) => hviol("traffic_after_shake_altered", format!("first message after the Shake is not the Ping that was sent (cut {})", cut), replay),
+					Err(e) => hviol("traffic_after_shake_lost", format!("Ping written right behind the Shake (cut at {} of {}) never arrives: {}", cut, stream_bytes.len(), e), replay),
+				},
+				Err(e) => hviol("initiate_failed_with_pipelined_traffic", format!("initiate failed with {:?} when the Shake was followed by a Ping (cut {})", e, cut), replay),
+			}
+			drop(srv);
+		}
+		// accept side: peer pipelines Hand || Ping
+		let hand = frame(1, &hand_body(LOCAL_VERSION, 0x0f, p.next_u64(), 9, &"10.9.8.7:13414".parse().unwrap(), &laddr, "scripted/1.0", &gbytes));
+		let mut stream_bytes = hand.clone();
+		stream_bytes.extend_from_slice(&ping);
+		let cuts: Vec<usize> = if scale == 0 { vec![0, 1, hand.len(), stream_bytes.len() - 1] } else { (0..stream_bytes.len()).step_by(3).chain([hand.len() - 1, hand.len(), hand.len() + 1]).collect() };
+		for &cut in &cuts {
+			let hs = Arc::new(Handshake::new(genesis, P2PConfig::default()));
+			let client = TcpStream::connect(laddr).expect("connect");
+			let _ = client.set_nodelay(true);
+			let (mut srv, _) = listener.accept().expect("accept");
+			let t = thread::spawn(move || {
+				let r = hs.accept(caps, Difficulty::from_num(4242), &mut srv);
+				(r, srv)
+			});
+			{
+				let mut w = &client;
+				if cut == 0 {
+					let _ = w.write_all(&stream_bytes);
+				} else {
+					let _ = w.write_all(&stream_bytes[..cut]);
+					thread::sleep(Duration::from_millis(2));
+					let _ = w.write_all(&stream_bytes[cut..]);
+				}
+			}
+			let mut c = client;
+			let _shake = read_frame(&mut c, 4000);
+			let (r, srv) = t.join().expect("accept thread");
+			run.eval(&format!("handshake_then_traffic|accept|cut_class{}", if cut == 0 { 0 } else if cut < hand.len() { 1 } else if cut == hand.len() { 2 } else { 3 }), true);
+			let replay = json!({"side": "accept", "stream": "Hand||Ping", "cut": cut, "hand_len": hand.len()});
+			match r {
+				Ok(info) => match read_after(srv, info.version) {
+					Ok(true) => run.count("handshake_then_traffic_ok", 1),
+					Ok(false) => hviol("traffic_after_hand_altered", format!("first message after the Hand is not the Ping that was sent (cut {})", cut), replay),
+					Err(e) => hviol("traffic_after_hand_lost", format!("Ping pipelined behind the Hand (cut at {} of {}) never arrives: {}", cut, stream_bytes.len(), e), replay),
+				},
+				Err(e) => hviol("accept_failed_with_pipelined_traffic", format!("accept failed with {:?} when the Hand was followed by a Ping (cut {})", e, cut), replay),
+			}
+		}
+	}
+
 	// ---- accept against a scripted peer
 	let accept_case = |hs: &Arc<Handshake>, hand: Vec<u8>, mode: u64| -> (Result<grin_p2p::PeerInfo, Error>, Option<(u8, Vec<u8>)>) {
 		let hs2 = hs.clone();
